@@ -231,8 +231,10 @@ def finish(ctx: Ctx, res: Result, t0: float) -> int:
         print(f"KNOWN-FINDING: property={ctx.prop} {k}: {known[k]}")
     rc = 0
     kf = os.path.join(REPLAY_DIR, f"{ctx.prop}-keys.json")
-    if not new and os.path.exists(kf):
-        os.unlink(kf)
+    if os.path.isdir(REPLAY_DIR):
+        for fn in os.listdir(REPLAY_DIR):  # artefacts of earlier runs of this property are stale
+            if fn.startswith(f"{ctx.prop}-") and fn.endswith(".json"):
+                os.unlink(os.path.join(REPLAY_DIR, fn))
     if new:
         os.makedirs(REPLAY_DIR, exist_ok=True)
         with open(os.path.join(REPLAY_DIR, f"{ctx.prop}-keys.json"), "w") as f:
